@@ -595,3 +595,30 @@ Section DataStageFacts.
     apply map_ext. intros s. rewrite !find_rec_view, S. reflexivity.
   Qed.
 End DataStageFacts.
+
+(* ================================================================== the zero rule in front of the de-duplication *)
+Section ZeroStageFacts.
+  Context {Wc W O : Type}.
+  Variable is_zero : O -> bool.
+  Variable w_nan : Wc.
+  Variable w_empty : Wc -> bool.
+  Variable calendar : list Z -> list (list cal_stamp * option err).
+  Variable fill_w : list (option Wc) -> list W.
+  Variable fill_o : list (option O) -> list (option O).
+
+  (* the rule touches the usage cell only: stamp and weather cells of every record are as the caller gave them *)
+  Lemma zero_rec_view : forall elec (l : list (rec Wc O)),
+    map rec_view (map (zero_rec is_zero w_nan ZeroUsageCell elec) l) = map rec_view l.
+  Proof.
+    intros elec l. rewrite map_map. apply map_ext. intros r. unfold zero_rec.
+    destruct (elec && match q_obs r with Some o => is_zero o | None => false end); reflexivity.
+  Qed.
+
+  Lemma public_stage_ni : forall elec elec' (a b : list (rec Wc O)), same_records_but_usage a b ->
+    same_weather_calendar (public_stage is_zero w_nan w_empty calendar fill_w fill_o ZeroUsageCell elec KeepFirst a)
+                          (public_stage is_zero w_nan w_empty calendar fill_w fill_o ZeroUsageCell elec' KeepFirst b).
+  Proof.
+    intros elec elec' a b H. unfold public_stage. apply data_stage_ni.
+    unfold same_records_but_usage in *. rewrite !zero_rec_view. exact H.
+  Qed.
+End ZeroStageFacts.
